@@ -3,8 +3,8 @@ CONSTANTS
   Versions <- VersionsAll
   Family = "ops"
   ShapeIds <- ShapesAll
-  VariantIds <- Variants1
-  MaxOps = 3
+  VariantIds <- Variants2
+  MaxOps = 2
   Alphabet <- AlphabetQuick
   PreOps <- PreNone
   SibFields <- NoFields
